@@ -8,6 +8,7 @@ custom functions at every depth, 0-1 contexts in either position, converter-type
 import Gv.Model.Eval
 import Gv.Model.Gen
 import Gv.Proofs.GenLemmas
+import Gv.Model.Signature
 
 namespace Gv.Props.C06
 open Gv Gv.Str Gv.Gen Gv.Eval
@@ -61,5 +62,56 @@ theorem C06_context_not_source (p : Program) (fr : Frame) (fuel : Nat) (i : Nat)
     evalConv p (fuel+1) fr (.call (.custom i) [.ctx ct] false w) src' old n := by
   unfold evalConv
   simp [List.filterMapM, List.filterMapM.loop, bind, StateT.bind, pure, StateT.pure, hd, hc, hctx]
+
+/-! ### which functions an `extend` setting selects (pkgload.GetMatching) -/
+
+open Gv.Signature in
+/-- a pattern selects EVERY fully matching object that is a usable conversion function: none is dropped silently -/
+theorem C06_extend_pattern_complete (o : Opts) (lit : S) (cands : List Cand) (names : List S)
+    (h : selectExtend false lit o cands = .ok names) (c : Cand) (hc : c ∈ cands) (hm : c.fullMatch = true)
+    (hu : usable o c = true) : c.name ∈ names := by
+  unfold selectExtend at h
+  simp only [Bool.false_eq_true, if_false] at h
+  split at h
+  · cases h
+  · cases h
+    exact List.mem_map.2 ⟨c, List.mem_filter.2 ⟨hc, by simp [hm, hu]⟩, rfl⟩
+
+open Gv.Signature in
+/-- and nothing else: every selected name is a fully matching usable object, in the order of the package scope -/
+theorem C06_extend_pattern_sound (o : Opts) (lit : S) (cands : List Cand) (names : List S)
+    (h : selectExtend false lit o cands = .ok names) :
+    names = (cands.filter (fun c => c.fullMatch && usable o c)).map (·.name) ∧ names ≠ [] := by
+  unfold selectExtend at h
+  simp only [Bool.false_eq_true, if_false] at h
+  split at h
+  · cases h
+  · rename_i hne
+    cases h
+    refine ⟨rfl, ?_⟩
+    intro hnil
+    apply hne
+    simpa using hnil
+
+open Gv.Signature in
+/-- a pattern that selects nothing is an error, never an empty selection -/
+theorem C06_extend_pattern_nomatch (o : Opts) (lit : S) (cands : List Cand)
+    (h : ∀ c, c ∈ cands → (c.fullMatch && usable o c) = false) : selectExtend false lit o cands = .error .noMatch := by
+  unfold selectExtend
+  simp only [Bool.false_eq_true, if_false]
+  have : cands.filter (fun c => c.fullMatch && usable o c) = [] := by
+    rw [List.filter_eq_nil_iff]
+    intro c hc; simpa using h c hc
+  simp [this]
+
+open Gv.Signature in
+/-- a literal name selects exactly that function or reports why it cannot be used -/
+theorem C06_extend_literal (o : Opts) (lit : S) (cands : List Cand) (c : Cand)
+    (hf : cands.find? (fun x => x.name == lit) = some c) :
+    (∀ d, parse o c.obj = .ok d → selectExtend true lit o cands = .ok [c.name]) ∧
+    (∀ e, parse o c.obj = .error e → selectExtend true lit o cands = .error (.parse e)) := by
+  constructor
+  · intro d hd; unfold selectExtend; simp [hf, hd]
+  · intro e he; unfold selectExtend; simp [hf, he]
 
 end Gv.Props.C06
